@@ -119,19 +119,24 @@ PROPS = {
     },
     "C23": {
         "level": "proof",
-        "verus": ["coordinate"],
+        "verus": ["coordinate", "coordinate_lookup"],
         "kani": ["apollo-compiler/coordinate.rs"],
         "frame": ["coordinate_display_formats"],
         "technique": "Verus contracts on the five extracted from_str bodies against existential grammar forms over Seq<char> (unbounded); bounded Kani harnesses tie the shims to the real code",
         "explanation": "Verus proves for every string of any length that TypeCoordinate / TypeAttributeCoordinate / FieldArgumentCoordinate / DirectiveCoordinate / "
                        "DirectiveArgumentCoordinate::from_str return Ok iff the string has the form Name | Name.Name | Name.Name(Name:) | @Name | @Name(Name:), and that the parsed "
                        "component names are exactly the substrings (input == ty + '.' + field + '(' + argument + ':)' etc.), so printing with the Display format strings "
-                       "(checked syntactically) gives back the input. Bounded stand-ins (Kani, short strings over a class alphabet, not counted as proved): the same iff on the real "
+                       "(checked syntactically) gives back the input. Lookup (unit coordinate_lookup): Verus proves for every schema (types, fields, enum values, input fields, "
+                       "directive definitions and argument lists as maps / sequences keyed by the names' text) that every lookup / lookup_ref / lookup_field / lookup_input_field / lookup_enum_value of the five "
+                       "coordinate kinds returns Ok iff the schema has an element with exactly those names, returns exactly that element (the entry of that map under that key; the first argument definition "
+                       "with that name), and otherwise an error naming the missing component. Bounded stand-ins (Kani, short strings over a class alphabet, not counted as proved): the same iff on the real "
                        "code including the real Name::try_from, and SchemaCoordinate::from_str's dispatch.",
         "assumptions": ["str::split_once(char) / strip_prefix(char) behave as documented (external_body free functions after a listed method->function rewrite)",
                         "&str values with equal characters are equal (axiom_str_ext; what a string-literal pattern compares)",
                         "Name::try_from(&str) is Ok iff the Name grammar holds and keeps the text (proved for Name::new in unit `name`; TryFrom<&str> forwards to it)"],
-        "not_decided": ["SchemaCoordinate::from_str dispatch beyond the bounded harnesses (closures: .map(..).or_else(..))", "Display impls beyond the syntactic check of their format strings", "lookup in a schema (IndexMap)"],
+        "not_decided": ["SchemaCoordinate::from_str dispatch beyond the bounded harnesses (closures: .map(..).or_else(..))", "Display impls beyond the syntactic check of their format strings",
+                        "SchemaCoordinate::lookup's dispatch over the five kinds (`.map(Into::into)` over From impls: trait function values, outside Verus)",
+                        "IndexMap::get / argument_by_name behave as maps / first-match search keyed by the name's text (shim contracts)"],
     },
     "C01": {
         "level": "proof",
